@@ -101,8 +101,12 @@ func checkFunctionCalls(expr Expression, allowAggr bool) error {
 			if (!fobj.VarArgs && len(e.Args) != fobj.NumArgs) || (fobj.VarArgs && len(e.Args) < fobj.NumArgs) {
 				return NewSyntaxError(e.GetPos(), "Function %s has wrong number of arguments: %d", fname, len(e.Args))
 			}
-		} else if _, have := GetAggrFunctionByName(fname); !have || !allowAggr {
+		} else if aobj, have := GetAggrFunctionByName(fname); !have || !allowAggr {
 			return NewSyntaxError(e.GetPos(), "Cannot find function %s", fname)
+		} else if (!aobj.VarArgs && len(e.Args) != aobj.NumArgs) || (aobj.VarArgs && len(e.Args) < aobj.NumArgs) {
+			// reported as AggregatePlan.Init reports it, but not left to it: the constant
+			// folder may drop the call before the plan is built
+			return NewExecuteError(e.GetPos(), "Function %s require %d arguments but got %d", aobj.Name, aobj.NumArgs, len(e.Args))
 		}
 		for _, arg := range e.Args {
 			if err := checkFunctionCalls(arg, false); err != nil {
